@@ -263,7 +263,7 @@ def explore(h, max_paths=2000, time_budget=600.0, witness_per_harness=3, obl_tim
         # witness validation (also the vacuity witness): a model of the path condition is
         # pushed through the real code in floats and every claim must hold there too
         if rec.obligations and (res["witness_validated"] + res["witness_skipped"] < witness_per_harness or rec.inconclusive) and not rec.cex:
-            w = _witness(env, ctx)
+            w = _witness(env, ctx, interior=bool(h.opts.get("witness_interior")))
             if w is None:
                 res["witness_skipped"] += 1
             else:
@@ -296,8 +296,12 @@ def _where_any(e):
     return "%s:%d:%s" % (f.filename, f.lineno, f.name)
 
 
-def _witness(env, ctx):
-    nice = []
+def _witness(env, ctx, interior=False):
+    """A model of the path condition as concrete inputs. `interior` (harness option `witness_interior`) first asks for a
+    witness in general position - every bounded real input in the middle three quarters of its range - so that the float
+    replay of a path whose obligation the solver left undecided is not run on a degenerate point (zero energy makes
+    every normalisation claim true)."""
+    nice, inner = [], []
     for name, v in env.vars.items():
         if z3.is_int(v):
             continue
@@ -305,6 +309,13 @@ def _witness(env, ctx):
         if hi is None:
             nice.append(v <= 16)
         nice.append(z3.ToReal(z3.ToInt(v * 16)) == v * 16)
+        if interior and lo is not None and hi is not None and hi > lo:
+            inner += [v >= lo + (hi - lo) / 8.0, v <= hi - (hi - lo) / 8.0]
+    if inner:
+        for extra in (nice + inner, inner):
+            r, m = ctx.solve(extra, 10000, full=True)
+            if m is not None:
+                return model_inputs(env, m)
     nonlin = any(vs & ctx.defined_ids for vs in ctx.cond_vars)
     if not nonlin:
         for extra in (nice, []):
